@@ -72,21 +72,23 @@ theorem glue_needs_space : lexSyms 8 (unSpellChars .Minus ++ unSpellChars .Minus
 
 /-- **paren_rule_matches_grammar.** For every child position of unary, binary and conditional nodes: if
 `format_subexpression` prints the child without parentheses, the child's production level is at most the level
-at which the parser reads that position — except the middle operand of a conditional, where only `≤ 14` holds
-although the parser reads it with `expr_p13` (see `ternary_middle_assignment_breaks`). -/
+at which the parser reads that position (the levels of the conditional's operands are the ones extracted from
+`ternary_right`: the middle operand is read at the assignment level since f3b64c8). -/
 theorem paren_rule_matches_grammar :
-    (∀ op (x : Expr), isPostfix op = false → needParen x.prec (unPrec op) prefixOperandSide = false → x.lvl ≤ 2) ∧
-    (∀ op (x : Expr), isPostfix op = true → needParen x.prec (unPrec op) postfixOperandSide = false → x.lvl ≤ 1) ∧
+    (∀ op (x : Expr), isPostfix op = false → needParen x.prec (unPrec op) prefixOperandSide = false → x.lvl ≤ prefixLevel) ∧
+    (∀ op (x : Expr), isPostfix op = true → needParen x.prec (unPrec op) postfixOperandSide = false → x.lvl ≤ postfixLevel) ∧
     (∀ op (x : Expr), needParen x.prec (binPrec op) binLeftSide = false →
-      (binLevel op ≠ 14 → x.lvl ≤ binLevel op) ∧ (binLevel op = 14 → x.lvl ≤ 12)) ∧
+      (binLevel op ≠ assignLevel → x.lvl ≤ binLevel op) ∧ (binLevel op = assignLevel → x.lvl ≤ ternaryLevel - 1)) ∧
     (∀ op (x : Expr), needParen x.prec (binPrec op) binRightSide = false →
-      (binLevel op ≠ 14 → x.lvl ≤ binLevel op - 1) ∧ (binLevel op = 14 → x.lvl ≤ 14)) ∧
-    (∀ x : Expr, needParen x.prec precTernaryConditional ternCondSide = false → x.lvl ≤ 12) ∧
-    (∀ x : Expr, needParen x.prec precTernaryConditional ternTrueSide = false → x.lvl ≤ 14) ∧
-    (∀ x : Expr, needParen x.prec precTernaryConditional ternFalseSide = false → falseIsAssignment x = false → x.lvl ≤ 13) :=
+      (binLevel op ≠ assignLevel → x.lvl ≤ binLevel op - 1) ∧ (binLevel op = assignLevel → x.lvl ≤ assignLevel)) ∧
+    (∀ x : Expr, needParen x.prec precTernaryConditional ternCondSide = false → x.lvl ≤ ternaryLevel - 1) ∧
+    (∀ x : Expr, needParen x.prec precTernaryConditional ternTrueSide = false → x.lvl ≤ ternMiddleLevel) ∧
+    (∀ x : Expr, needParen x.prec precTernaryConditional ternFalseSide = false → falseIsAssignment x = false →
+      x.lvl ≤ ternLastLevel) :=
   ⟨pos_prefix, pos_postfix, fun op x h => ⟨fun h14 => ((pos_binL op x h).1 h14).1, (pos_binL op x h).2⟩,
    pos_binR, pos_ternC, pos_ternA, fun x h hf => by
      have := pos_ternB x h
+     show x.lvl ≤ 13
      rcases Nat.lt_or_ge x.lvl 14 with h1 | h1
      · omega
      · have := this.2 (by omega); rw [hf] at this; cases this⟩
@@ -101,9 +103,9 @@ def Stops (rest : List Tok) : Prop :=
 the conditional, member access, array subscript and calls (without template arguments), nested to any depth: the tokens of the printed text, followed by anything that ends an
 expression, are read by the parser model at the top level (`expr_p15`, terminator `Standard`) as exactly the tree.
 
-Partial, because `WF` excludes exactly: (1) literals that do not print as one token reading back as themselves
-(negative values, `-0.0`, NaN, integral `Float16`/`Float64`, … — `LitOk`), (2) an assignment as the *middle* operand of
-a conditional — where the full statement is false, `ternary_middle_assignment_breaks`. Casts, `sizeof`, template
+Partial, because `WF` excludes literals that do not print as one token reading back as themselves (negative values,
+`-0.0`, NaN, … — `LitOk`, see `literal_roundtrip_partial` / `negative_literals_break`) — for those the full statement is
+false on the real code (known findings). Casts, `sizeof`, template
 arguments and braced initialisers are not in the model at all (so neither is `expr_p1_call`'s attempt to read
 `<…>(` as template arguments, which breaks `a < b > (c)` on the real code — a known finding). -/
 theorem roundtrip_expr_partial (e : Expr) (hwf : WF e) (rest : List Tok) (hrest : Stops rest) :
@@ -129,33 +131,83 @@ theorem roundtrip_subexpr_partial (e : Expr) (hwf : WF e) (outer : Nat) (side : 
   obtain ⟨N, h⟩ := rts_self (rt e hwf) outer side k term rest hterm hk hpos hno hin
   exact ⟨N, h N (Nat.le_refl _)⟩
 
-/-- non-vacuity: a depth-6 tree (identifier leaves: `LitOk` of a concrete literal is decided by the compiled model —
-literal names are strings, which the kernel does not evaluate — so literal leaves enter the theorem as a hypothesis) mixing eight levels, both associativities, prefix/postfix signs, conditionals, member, subscript and call -/
+/-! ## Literals -/
+
+/-- **literal_roundtrip_partial** (token level). Every non-negative integer literal of every kind (within the range
+the suffix admits) and both booleans
+print as one token carrying the same kind and value; so does every non-negative float in the modelled (dyadic) subset.
+What is *not* proved here: that the printed digits are the value (Rust `Display`, trusted) and that the lexer reads
+digits back exactly (C10 `int_value_exact` / `lex_float_nearest`); `decimal_roundtrip` below is the digit-level core. -/
+theorem literal_roundtrip_partial :
+    (∀ v, LitOk ⟨.IntUntyped, false, v⟩ = true ∧ (v < 2 ^ 32 → LitOk ⟨.IntUnsigned32, false, v⟩ = true) ∧
+          LitOk ⟨.IntUnsigned64, false, v⟩ = true ∧ (v < 2 ^ 63 → LitOk ⟨.IntSigned64, false, v⟩ = true)) ∧
+    LitOk ⟨.Bool, false, 0⟩ = true ∧ LitOk ⟨.Bool, false, 1⟩ = true ∧
+    (∀ bits q, eighths? 11 52 bits = some q → LitOk ⟨.FloatUntyped, false, bits⟩ = true ∧ LitOk ⟨.Float64, false, bits⟩ = true) ∧
+    (∀ bits q, eighths? 8 23 bits = some q → LitOk ⟨.Float32, false, bits⟩ = true ∧ LitOk ⟨.Float16, false, bits⟩ = true) := by
+  refine ⟨fun v => ⟨?_, ?_, ?_, ?_⟩, ?_, ?_, fun bits q h => ⟨?_, ?_⟩, fun bits q h => ⟨?_, ?_⟩⟩ <;>
+    (try intro hv) <;> simp [LitOk, litPieces, floatPieces, litTooLarge, *] <;> omega
+
+/-- **Negation for negative literals, all of them.** A negative 64-bit integer literal and a float literal with the
+sign bit set (other than zero) print as `-` followed by the non-negative literal — two tokens, which the parser reads
+as `UnaryOperation(Minus, …)`; negative zero prints as the token of positive zero. (Real code: known findings.) -/
+theorem negative_literals_break :
+    (∀ v, v ≠ 0 → (litPieces ⟨.IntSigned64, true, v⟩).map toks = some [.p .Minus, .lit ⟨.IntSigned64, false, v⟩]) ∧
+    (∀ bits q, eighths? 8 23 bits = some q → q ≠ 0 →
+      (litPieces ⟨.Float32, true, bits⟩).map toks = some [.p .Minus, .lit ⟨.Float32, false, bits⟩]) ∧
+    (litPieces ⟨.Float32, true, 0⟩).map toks = some [.lit ⟨.Float32, false, 0⟩] ∧
+    LitOk ⟨.IntSigned64, true, 5⟩ = false ∧ LitOk ⟨.Float32, true, 0⟩ = false := by
+  refine ⟨fun v hv => ?_, fun bits q h hq => ?_, ?_, ?_, ?_⟩
+  · simp [litPieces, hv, minusPiece]
+  · simp [litPieces, floatPieces, h, hq, minusPiece]
+  · decide
+  · decide
+  · decide
+
+/-- digits of `n`, least significant first -/
+def decDigits : Nat → Nat → List Nat
+  | 0, _ => []
+  | f + 1, n => if n < 10 then [n] else n % 10 :: decDigits f (n / 10)
+
+def ofDigits : List Nat → Nat
+  | [] => 0
+  | d :: r => d + 10 * ofDigits r
+
+/-- **decimal_roundtrip.** Reading back the decimal digits of a number gives the number (any fuel above the value). -/
+theorem decimal_roundtrip : ∀ f n, n < f → ofDigits (decDigits f n) = n := by
+  intro f
+  induction f with
+  | zero => intro n h; omega
+  | succ f ih =>
+    intro n h
+    unfold decDigits
+    split
+    · simp [ofDigits]
+    · simp only [ofDigits]
+      rw [ih (n / 10) (by omega)]
+      omega
+
+/-- non-vacuity: a depth-6 tree (with literal leaves of four kinds: `LitOk` is decided by the kernel) mixing eight levels, both associativities, prefix/postfix signs, conditionals, member, subscript and call -/
 def sample : Expr :=
   .bin .Assignment (.id "r")
     (.tern (.bin .LessThan (.bin .Add (.id "a") (.bin .Multiply (.id "b") (.un .Minus (.un .Minus (.id "c"))))) (.id "d"))
       (.bin .Subtract (.id "x") (.bin .Subtract (.sub (.mem (.id "y") "m") (.bin .Sequence (.id "i") (.id "j")))
         (.un .PostfixDecrement (.id "z"))))
       (.bin .Sequence (.bin .BitwiseOrAssignment (.id "p") (.id "q"))
-        (.un .LogicalNot (.call (.mem (.id "w") "f") (.cons (.tern (.id "u") (.id "v") (.id "w")) (.cons (.id "k") .nil))))))
+        (.un .LogicalNot (.call (.mem (.id "w") "f") (.cons (.tern (.id "u") (.id "v") (.id "w")) (.cons (.bin .Multiply (.lit ⟨.Float32, false, 0x3fc00000⟩) (.lit ⟨.IntUnsigned64, false, 18446744073709551615⟩))
+          (.cons (.bin .Add (.lit ⟨.IntUntyped, false, 3⟩) (.lit ⟨.Float64, false, 0x4000000000000000⟩)) .nil)))))))
 
 theorem sample_wf : WF sample := by
-  simp [sample, WF, WFA, Expr.lvl, binLevel, levelOfPrec, binPrec]
+  simp [sample, WF, WFA]
+  decide
 example : ReadsBack sample [] := roundtrip_expr_partial sample sample_wf [] (Or.inl rfl)
 
-/-- the excluded conditional shape -/
+/-- the conditional shape that did not read back before f3b64c8 (`expr_p13` read the middle operand with `expr_p13`) -/
 def ternaryMiddleAssignment : Expr :=
   .tern (.id "c") (.bin .Assignment (.id "b") (.id "x")) (.id "a")
 
-/-- **Negation of the full statement, with witness.** `c ? b = x : a` (the tree a parser produces for
-`c ? (b = x) : a`) is printed without parentheses and the parser model does not read the text back:
-it stops in front of `?`. (Replayed on the real code: known finding `rejected-by-parser … (tern …)`.) -/
-theorem ternary_middle_assignment_breaks :
-    ¬ WF ternaryMiddleAssignment ∧
-    parseAll .Standard (toks (fmtExpr ternaryMiddleAssignment)) =
-      some (.id "c", [.p .QuestionMark, .id "b", .p .Equals, .id "x", .p .Colon, .id "a"]) := by
-  constructor
-  · simp [ternaryMiddleAssignment, WF, Expr.lvl, binLevel, levelOfPrec, binPrec]
-  · rfl
+/-- `c ? b = x : a` now round-trips: by the theorem, and by evaluating the parser model on the printed tokens -/
+example : ReadsBack ternaryMiddleAssignment [] :=
+  roundtrip_expr_partial ternaryMiddleAssignment (by simp [ternaryMiddleAssignment, WF]) [] (Or.inl rfl)
+example : parseAll .Standard (toks (fmtExpr ternaryMiddleAssignment)) = some (ternaryMiddleAssignment, []) := rfl
 
 end RsslVerif.Thm.C09
